@@ -50,6 +50,9 @@ def run(ctx):
     with core.Scratch('c12') as root:
         for i in range(n):
             nfiles = rng.choice([1, 5, 40]) if ctx.quick else rng.choice([1, 5, 40, 300])
+            slow_size = 16 <= i < 20      # corpus: a client whose send(Size) is SLOW (20 ms): an operation queued before its size is announced shows as copied > announced
+            if slow_size:
+                nfiles = 5
             lens = make_tree(root, rng, nfiles, rng.choice([300, 5000, 70000]))
             total = sum(lens)
             driver = ['parfile', 'parblock'][i % 2]
@@ -67,9 +70,11 @@ def run(ctx):
             elif i < 16 and i >= 12:  # corpus: creating a destination file fails with ENOENT (its directory vanished, a dangling link): an error, not "source vanished"
                 driver = 'parfile'; workers = [1, 4][i % 2]; updater = ['record', 'noop', 'channel', 'record'][i - 12]
                 fault = True; forced = f'fail openat D/ {1 + i % 3} {E["ENOENT"]}'
+            elif slow_size:
+                driver = ['parfile', 'parblock'][i % 2]; workers = 4; updater = 'record'; fault = False; bsize = [4096, 1 << 20][(i // 2) % 2]
             elif i < 12:  # corpus: a source sub-directory that cannot be listed (EACCES, as for an unprivileged user): Error or Err, never silence
                 fault = True; forced = f'fail openat =S/sub 1 {E["EACCES"]}'
-            if rng.random() < 0.5:
+            if rng.random() < 0.5 and not slow_size:
                 plan.append(f'sched {ctx.seed * 13 + i} {rng.choice(["pct", "delay"])} {rng.randint(1, 3)}')
             if fault:
                 victim = f'f{rng.randrange(nfiles)}'
@@ -77,7 +82,9 @@ def run(ctx):
                                         f'fail openat S/sub/{victim} 1 {E["EMFILE"]}', f'fail mkdir sub 1 {E["EACCES"]}', f'fail openat D/{victim} 1 {E["ENOENT"]}', f'fail openat D/sub/{victim} 1 {E["ENOENT"]}', f'fail openat D/sub/deep/{victim} 1 {E["ENOENT"]}',
                                         f'fail mknodat fifo 1 {E["EPERM"]}', f'fail mknodat fifo 1 {E["EPERM"]}', f'fail symlink link 1 {E["EIO"]}']))
             argv = ['--driver', driver, '--workers', str(workers), '--block-size', str(bsize), '--updater', updater]
-            if updater == 'record' and rng.random() < 0.5:
+            if slow_size:
+                argv += ['--stall-us', '20000']; ctx.count('slow_size_client')
+            elif updater == 'record' and rng.random() < 0.5:
                 argv += ['--stall-us', str(rng.choice([100, 500]))]
             argv += ['--', 'S', 'D']
             r = scen.run_xcp(root, argv, plan=plan, timeout=120, binary=probe)
